@@ -371,6 +371,17 @@ theorem cfWrite_fields (s : State) (stop n : Nat) (ok : Bool) :
     · exact ⟨rfl, rfl, rfl⟩
     · split <;> exact ⟨rfl, rfl, rfl⟩
 
+theorem chainOk_good (c : Cfg) : ∀ (blocks log : List Nat), Good c.tbl log → chainOk c log blocks = true →
+    Good c.tbl (log ++ blocks) := by
+  intro blocks
+  induction blocks with
+  | nil => intro log g _; simpa using g
+  | cons b bs ih =>
+    intro log g hok
+    simp only [chainOk, Bool.and_eq_true, beq_iff_eq] at hok
+    have := ih (log ++ [b]) (Good.snoc g hok.1.1.1 hok.1.1.2) hok.2
+    simpa using this
+
 /-- `BM.inv_step` (C01 part) -/
 theorem inv1_step (c : Cfg) (hw : 1 ≤ c.win) (s : State) (e : Ev) (h : Inv1 c s) : Inv1 c (step c s e).1 := by
   cases e with
@@ -401,6 +412,17 @@ theorem inv1_step (c : Cfg) (hw : 1 ≤ c.win) (s : State) (e : Ev) (h : Inv1 c 
     simp only [step]
     exact ⟨by rw [a]; exact h.good, by rw [b]; exact h.clean, by simp only [ListAnchored, a, d]; exact h.anchored⟩
   | backlog k => exact h
+  | headersFailWrite p hs =>
+    simp only [step, handleHeadersFailWrite]
+    split
+    · exact ⟨h.good, h.clean, anchored_anchor _ _ rfl rfl⟩
+    · exact handleHeaders_inv c hw s p hs h
+  | importReset blocks nf =>
+    simp only [step, importReset]
+    refine ⟨?_, h.clean, anchored_anchor _ _ rfl rfl⟩
+    split
+    · rename_i hok; exact chainOk_good c _ _ h.good hok
+    · exact h.good
 
 theorem inv1_init (c : Cfg) (peers : List Peer) : Inv1 c (init c peers) :=
   ⟨Good.gen, rfl, rfl⟩
